@@ -178,6 +178,22 @@ func (e *Engine) verifyUnit(fn *ssa.Function, ct *FuncContract, alias []string, 
 			x.frameObligations(fr, ret.st, u.Name, suffix)
 		}
 	}
+	if len(fr.defers) > 0 && len(ct.PanicEns) > 0 {
+		// deferred calls also run while a panic unwinds
+		for k := range fr.panics {
+			ps := fr.panics[k].clone()
+			x.runDefers(fr, ps)
+			fr.panics[k] = ps
+		}
+	}
+	for k, ps := range fr.panics {
+		ctx := x.ownCtx(fr, ps, false)
+		for j, en := range ct.PanicEns {
+			ctx.src = en.Src
+			t, _ := ctx.evalText(en.Text)
+			vc.oblige(fmt.Sprintf("%s/panic-post:%s@panic%d", u.Name, clauseID(en, j), k), "post", u.Name, en.Src, "on panic: "+en.Text, ps.pc, t)
+		}
+	}
 	if ct.Panics != nil {
 		for k, ps := range fr.panics {
 			pc := x.ownCtx(fr, fr.entry, false)
